@@ -409,7 +409,7 @@ func (g *Gen) Step() {
 		default:
 			g.emit(Intent{T: "ext_deposit", U: g.R.Intn(len(w.Users)), Chain: ch, Chain2: "hub", Denom: t.Denom, Amt: g.amount(big.NewInt(1000000)), Fee: "0"})
 		}
-		muts := []string{"height_hi", "height_hi", "height_hi", "tx_hash", "fee_payer", "member_power_hi", "amount", "receiver", "sender", "batch_nonce_hi", "set_nonce_hi", "fee", "coin"}
+		muts := []string{"height_hi", "height_hi", "height_hi", "member_case", "member_case", "tx_hash", "fee_payer", "member_power_hi", "amount", "receiver", "sender", "batch_nonce_hi", "set_nonce_hi", "fee", "coin"}
 		g.emit(Intent{T: "byz_claim", V: v, Chain: ch, Mut: muts[g.R.Intn(len(muts))], Net: "front"})
 		for o := range w.Vals {
 			if o != v {
